@@ -88,6 +88,28 @@ def check_sanitised(rep: Report, rid: str, prog: Program, need_cap: bool = True)
             rep.ok(rid)
 
 
+def select_strategy_shape(rep: Report, rid: str, prog: Program) -> None:
+    """_select_strategy(K) = the per-class entry when K has one (presence, not truthiness), else the default"""
+    fi = prog.func(f"{BASE}._select_strategy")
+    rep.analysed(fi.qual)
+    for p in engine(prog).paths(fi):
+        rep.instance(rid, "_select_strategy", {"result": show(p.exit[1])})
+        want = ("pure", ".get", (attr(SELF, "_strategies"), ("param", "klass"), attr(SELF, "_default_strategy")), ())
+        if p.exit == ("return", want):
+            rep.ok(rid)
+        else:
+            # accept the explicit membership form
+            ok = False
+            if p.exit[0] == "return":
+                v = p.exit[1]
+                ok = v in (attr(SELF, "_default_strategy"), ("sub", attr(SELF, "_strategies"), ("param", "klass")))
+                ok = ok and any(a == ("cmp", "in", ("param", "klass"), attr(SELF, "_strategies")) for a, _pol, _ in p.conds)
+            if ok:
+                rep.ok(rid)
+            else:
+                rep.fail(rid, "_select_strategy|shape", f"_select_strategy returns {show(p.exit[1]) if len(p.exit) > 1 else p.exit}; expected self._strategies.get(klass, self._default_strategy)", where=fi.where(), function=fi.qual)
+
+
 def strategy_call_provenance(rep: Report, rid: str, prog: Program) -> None:
     """on every retry path the selected strategy is applied to a BackoffContext built from the true attempt number, the
     classifier's classification (retry_after_s included), the previous delay, the true remaining time and the cause"""
@@ -140,24 +162,7 @@ def run(rep: Report, prog: Program, tier: str) -> None:
     rep.not_decided = ["that BackoffContext.klass equals what the user's classifier meant (data)", "float semantics of min/max on NaN beyond the explicit guard"]
 
     rep.rule("R5.1", "_select_strategy(K) = per-class table entry if present else the default; both written only in __init__, every element normalised through _normalize_strategy")
-    fi = prog.func(f"{BASE}._select_strategy")
-    rep.analysed(fi.qual)
-    for p in engine(prog).paths(fi):
-        rep.instance("R5.1", "_select_strategy", {"result": show(p.exit[1])})
-        want = ("pure", ".get", (attr(SELF, "_strategies"), ("param", "klass"), attr(SELF, "_default_strategy")), ())
-        if p.exit == ("return", want):
-            rep.ok("R5.1")
-        else:
-            # accept the explicit membership form
-            ok = False
-            if p.exit[0] == "return":
-                v = p.exit[1]
-                ok = v in (attr(SELF, "_default_strategy"), ("sub", attr(SELF, "_strategies"), ("param", "klass")))
-                ok = ok and any(a == ("cmp", "in", ("param", "klass"), attr(SELF, "_strategies")) for a, _pol, _ in p.conds)
-            if ok:
-                rep.ok("R5.1")
-            else:
-                rep.fail("R5.1", "_select_strategy|shape", f"_select_strategy returns {show(p.exit[1]) if len(p.exit) > 1 else p.exit}; expected self._strategies.get(klass, self._default_strategy)", where=fi.where(), function=fi.qual)
+    select_strategy_shape(rep, "R5.1", prog)
     init = prog.func(f"{BASE}.__init__")
     rep.analysed(init.qual)
     for fn in prog.funcs.values():
@@ -422,3 +427,18 @@ def run(rep: Report, prog: Program, tier: str) -> None:
 
     sleep_action_tables(rep, "R5.5", prog)
     rep.floor("R5.5", 12)
+    rep.rule("R5.7", "the delay is actually slept: every granted retry reaches exactly one sleeper call before the next attempt, also when a before_sleep / metric / log hook raises (= C16 R16.1 with failing hooks)")
+    rep.rule("R5.7b", "DEFER / ABORT endings (re-run of C16 R16.2)")
+    from .c16 import sleep_protocol
+
+    sleep_protocol(rep, "R5.7", "R5.7b", prog)
+    rep.floor("R5.7", 60)
+    _foundations(rep, prog)
+
+
+def _foundations(rep: Report, prog: Program) -> None:
+    rep.rule("R5.6", "`that same delay` survives the records it travels in: _RetryDecision, BackoffContext, Classification and _AttemptOutcome are transparent (no __post_init__ / custom __init__ / shadowing property)")
+    from .foundations import records_transparent
+
+    records_transparent(rep, "R5.6", prog, ["redress.policy.state:_RetryDecision", "redress.strategies:BackoffContext", "redress.classify:Classification", "redress.policy.retry_helpers:_AttemptOutcome"])
+    rep.floor("R5.6", 4)
